@@ -18,10 +18,9 @@
  *     right neighbour: unless new lands, without any shift, on a cell strictly below g_p -- impossible in a
  *     sorted array when g_p is the first position of old, but that needs the quantified hypothesis.)
  *     This part only uses what the real loops themselves test on the cells next to the hole.
- * This is the contract callers may use for sort_replace as a REPLACEMENT for any n (sort_cb_input group
- * a5_sort_cb_input_rows): "some permutation-agnostic rewrite of sorted[], nothing else touched".
+ * Groups a5_sort_replace_safe_up (old <= new) and a5_sort_replace_safe_down (new <= old), together exhaustive.
  *
- * What does NOT close unboundedly (see DESIGN / the report of author a5sortunb): the positional ("shift")
+ * What does NOT close unboundedly (measured: see the group notes in plan/C20.json): the positional ("shift")
  * specification, sortedness and the multiset.  Both search loops stop at a data-dependent cell, so the proof of
  * "the loop stops at P" needs the hypothesis "every cell before P is < old" AT THE HAVOCKED loop index; the
  * shifting loops read ahead of the hole inside the region the loop contract havocs.  These are universally
@@ -31,6 +30,14 @@
 #include "sort.c"          /* the real /repo/src/emu/sort.c */
 
 #define SRS_NMAX (1L << 20)
+/* exhaustive split of the input space into two groups: SRS_CASE=1 old <= new, SRS_CASE=2 new <= old */
+#ifndef SRS_CASE
+#define SRS_SPLIT 1
+#elif SRS_CASE == 1
+#define SRS_SPLIT (old <= new)
+#else
+#define SRS_SPLIT (new <= old)
+#endif
 
 long g_p;                  /* some cell holding old */
 long g_lo;                 /* where the search of the old < new branch starts */
@@ -44,6 +51,7 @@ WITNESS(sort_replace);
 
 void c_sort_replace_safe(int64_t *arr, int64_t n, int64_t old, int64_t new)
 __CPROVER_requires(1 <= n && n <= SRS_NMAX)
+__CPROVER_requires(SRS_SPLIT)
 __CPROVER_requires(__CPROVER_is_fresh(arr, n * sizeof(int64_t)))
 /* old is in arr */
 __CPROVER_requires(0 <= g_p && g_p < n && arr[g_p] == old)
@@ -74,9 +82,11 @@ void h_sort_replace_safe(void)
 	REACH("sort_replace returns");
 	if (w_n == SRS_NMAX) REACH("2^20 rows");
 	if (w_n == 1) REACH("a single row");
+#if !defined(SRS_CASE) || SRS_CASE == 1
 	if (w_old < w_new && w_lo > 0 && w_k < w_lo) REACH("old < new: search starts at the middle, observer below it");
-	if (w_old < w_new && w_lo == 0) REACH("old < new: search starts at 0");
-	if (w_new < w_old && w_k > w_p) REACH("new < old: observer above old");
 	if (w_old < w_new && g_vk != w_new && g_vk1 != w_new && w_k > w_p + 1 && w_k + 1 < w_n && g_vk1 > w_new && g_vk <= w_new) REACH("old < new: observer is the landing cell, two cells above old");
+#endif
+#if !defined(SRS_CASE) || SRS_CASE == 2
 	if (w_new < w_old && g_vk != w_new && g_vkm1 != w_new && w_k + 1 < w_p && w_k > 0 && g_vkm1 <= w_new && g_vk > w_new) REACH("new < old: observer is the landing cell, two cells below old");
+#endif
 }
